@@ -109,13 +109,15 @@ theorem fields_total (H : List PyTy) (cname : Name) (kvs : List (Name × Json)) 
     have hone : ∃ v', (∃ m, fieldVal (structTy E m) cname kvs f = .ok v') ∧
         (∃ k, (match Json.lookup kvs f.wireS with
                | some x => rep E bad k f.ty v' x && f.faithfulJ x
-               | Option.none => f.dflt == Dflt.none && v'.isNone) = true) ∧
+               | Option.none => f.dflt == Dflt.none && v'.isNone && rep E bad k f.ty .none .null) = true) ∧
         (runFieldVld E cname f v = .ok () → runFieldVld E cname f v' = .ok ()) := by
       cases hl : Json.lookup kvs f.wireS with
       | none =>
         simp only [hl, Bool.and_eq_true, beq_iff_eq] at hcl
-        refine ⟨.none, ⟨0, by simp [fieldVal, hl, hcl.1, Dflt.toVal]⟩, ⟨0, by simp [hcl.1, PyVal.isNone]⟩, ?_⟩
-        have : v = .none := by cases v <;> simp [PyVal.isNone] at hcl ⊢
+        refine ⟨.none, ⟨0, by simp [fieldVal, hl, hcl.1.1, Dflt.toVal]⟩, ⟨n, by simp [hcl.1.1, PyVal.isNone, hcl.2]⟩, ?_⟩
+        have : v = .none := by
+          have h3 := hcl.1.2
+          cases v <;> simp [PyVal.isNone] at h3 ⊢
         rw [this]; exact id
       | some x =>
         simp only [hl, Bool.and_eq_true] at hcl
@@ -132,7 +134,9 @@ theorem fields_total (H : List PyTy) (cname : Name) (kvs : List (Name × Json)) 
     · simp only [repFields, Bool.and_eq_true, beq_self_eq_true, true_and]
       refine ⟨?_, repFields_mono (fun t w x hh => rep_mono E bad (Nat.le_max_right _ _) hh) kvs fs vals' hk2⟩
       cases hl : Json.lookup kvs f.wireS with
-      | none => simpa [hl] using hk1
+      | none =>
+        simp only [hl, Bool.and_eq_true] at hk1 ⊢
+        exact ⟨hk1.1, rep_mono E bad (Nat.le_max_left _ _) hk1.2⟩
       | some x =>
         simp only [hl, Bool.and_eq_true] at hk1 ⊢
         exact ⟨rep_mono E bad (Nat.le_max_left _ _) hk1.1, hk1.2⟩
